@@ -103,14 +103,18 @@ CHECKS = {
             "multiplexed) must carry exactly its own connection's three values, and any foreign value is attributed to the connection it belongs to.",
             "Single peer address (loopback); random (seeded) waves plus gated waves in which all connections are held at one hook point of serveConn until all have arrived, each point in turn."),
     'C13': ("H2Conn.tla (reaction table of processFrame and callees in code order; handler legality, GOAWAY coverage, no start after a connection error) checked by TLC; "
-            "a seeded sample of the live graph edges covered by paths replayed with a raw-frame client over TLS (PING/ACK barrier per frame, gated backend as handler completion)",
+            "a seeded sample of the live graph edges covered by paths replayed with a raw-frame client over TLS (PING/ACK barrier per frame, gated backend as handler completion); "
+            "H2Handlers.tla (when an accepted request's handler starts: handler limit, early-reset backlog, ENHANCE_YOUR_CALM, liveness NoStarvation) checked by TLC and its graph replayed "
+            "against handlers that ignore their context; ServeLoop.tla (select between the stream-ending write's result and the next HEADERS frame, drain rule, model mutant) bound by an "
+            "in-package construction of the both-pending state",
             "TLC explores all frame sequences to the depth bound over a rich alphabet; on the real server every replayed step's reactions (RST_STREAM code, GOAWAY code, SETTINGS ack, "
             "response, handler start) must equal the specification's modulo the latitude RFC 9113 gives; unexpected handler starts are checked at the end of every path.",
             "The permitted set is the tabulated reaction plus two latitude rules, not an independent RFC transcription; reset-in-flight states and steps inside an open header block "
             "that do not end in GOAWAY are not observable with a barrier and are cut."),
     'C14': ("CertReload.tla / CertReloadK8s.tla (file system with inodes and symlinks, inotify event model, watcher steps interleaved with writer steps) checked by TLC for all "
             "interleavings incl. torn two-file reads, with a non-vacuity mutant; histories of the serialized models replayed with real syscalls on a real directory against the real "
-            "certwatcher and real inotify, served pair compared after every step, real TLS handshakes, stress phase",
+            "certwatcher and real inotify, served pair compared after every step, real TLS handshakes, stress phase; CertHandout.tla (what a handshake holds across reloads); the TLS "
+            "configuration as the program wires it, observed by clients with / without / with another server name before and after rotations",
             "Safety (only valid matching pairs, last good pair kept) and convergence are decided for every update history in the bound in all three supported styles; the real watcher "
             "must serve exactly the version the specification predicts after each step of hundreds of histories - which also validates the kernel event model instead of trusting it.",
             "Quiescence is detected through the event hooks (verdict only after a solitary re-run); the torn read inside tls.LoadX509KeyPair is decided in the model only."),
